@@ -91,6 +91,12 @@ func (eng) Run(c core.CaseDesc, tier string) *core.CaseResult {
 	var rmx sync.Mutex
 	hr := rand.New(rand.NewPCG(c.Seed, 99))
 	pv, pm := r.Float64()*0.15, r.Float64()*0.2
+	// a quarter of the cases have handlers that panic now and then
+	faulted := map[string]bool{}
+	pp := 0.0
+	if r.IntN(4) == 0 {
+		pp = 0.02 + r.Float64()*0.05
+	}
 	budget := 20 + r.IntN(60) // handler-issued mutations per case (keeps the workload finite)
 	names := rec.AllHandlerNames(gen.Sorted(spec.Names))
 	for b := 0; b < nb; b++ {
@@ -103,6 +109,7 @@ func (eng) Run(c core.CaseDesc, tier string) *core.CaseResult {
 		_, _ = rec.BindMaps(m, mc.HLog, b, sub, func(hc *rec.HCall, e *am.Event) bool {
 			rmx.Lock()
 			veto := hr.Float64() < pv
+			boom := pp > 0 && hr.Float64() < pp && !e.IsCheck
 			mut := hr.Float64() < pm && budget > 0
 			if mut {
 				budget--
@@ -114,6 +121,14 @@ func (eng) Run(c core.CaseDesc, tier string) *core.CaseResult {
 			rmx.Unlock()
 			if mut && !e.IsCheck {
 				rec.Apply(e.Machine(), op)
+			}
+			if boom {
+				// a handler fault: the callbacks of the transition still come once
+				// and in order (its times are not judged)
+				rmx.Lock()
+				faulted[e.TransitionId] = true
+				rmx.Unlock()
+				panic("c14 fault")
 			}
 			return !veto
 		})
@@ -177,13 +192,21 @@ func (eng) Run(c core.CaseDesc, tier string) *core.CaseResult {
 				want = "ISFE"
 			}
 			okCb := tx.Callbacks == want || (tx.IsCheck && (tx.Callbacks == "ISE" || tx.Callbacks == "ISFE"))
-			if !okCb && !tx.Broken {
+			isFault := tx.Broken || faulted[tx.TxId]
+			if isFault {
+				// faulted: still Init, Start, (Finals), End once each and in order
+				okCb = tx.Callbacks == "ISE" || tx.Callbacks == "ISFE"
+				res.Count("faulted_transitions_judged_for_their_callbacks", 1)
+			}
+			if !okCb {
 				res.Violate("C14/callbacks/"+tx.Callbacks+"-want-"+want, fmt.Sprintf(
 					"tracer %d transition %d (%s %v accepted=%v) got callbacks %q, want %q", ti, i, tx.Type, tx.Called,
 					tx.Accepted, tx.Callbacks, want), map[string]any{"ctx": ctx, "tx": tx})
 			}
-			if tx.Broken {
-				last = tx.After
+			if isFault {
+				// the statement's time clauses are for transitions without handler
+				// faults; the chain restarts after one
+				last = nil
 				continue
 			}
 			if last != nil && !rec.TimeEq(last, tx.Before) {
